@@ -26,6 +26,7 @@ type sval interface{}
 type svPath struct { // the value initially stored at root.steps (pointer indirection is transparent)
 	root  types.Object
 	steps []string
+	via   sval // when root is nil: the location lies below the object this (pointer) value designates
 }
 type svAddr struct{ p svPath }          // &root.steps
 type svConst struct{ v constant.Value } // compile-time constant
@@ -54,6 +55,8 @@ type svCall struct { // result of a call that is not inlined
 	args   []sval
 	call   *ast.CallExpr
 	idx    int // which result
+	// held[i]: what the variable whose address is args[i] held when the call was made (nil otherwise)
+	held []sval
 	// an observer is a nullary method of a dependency: two such calls on the same receiver with nothing stored or
 	// called in between (same epoch) yield the same value
 	observer bool
@@ -142,6 +145,14 @@ type effsim struct {
 	// indexSafe: index expressions evaluated so far; true while every evaluation selected an existing element
 	// of a list whose length is known
 	indexSafe map[*ast.IndexExpr]bool
+	// force, when set, decides a condition without splitting the path (a rule that only needs the paths on which
+	// nothing went wrong follows "the result is non-nil", "the stop predicate is false")
+	force func(v sval) (bool, bool)
+	// outValues: a pointer-typed local whose address is passed to an opaque call holds an out-value afterwards
+	outValues bool
+	// loopBodyOnly: a loop over a collection that is not a literal is followed through its body only (the
+	// "no element" path is not explored)
+	loopBodyOnly bool
 	// mapStoreSafe: element stores m[k] = v evaluated so far; true while the map stored into was always one made
 	// during the call (make / a literal), directly or as a field of a value built during the call
 	mapStoreSafe map[*ast.IndexExpr]bool
@@ -229,7 +240,11 @@ func (c *Ctx) simulate(fd *ast.FuncDecl, inline func(*types.Func) bool) ([]spath
 }
 
 func (c *Ctx) simulateOpt(fd *ast.FuncDecl, inline func(*types.Func) bool, trackReads bool) ([]spath, string) {
-	s := &effsim{c: c, inline: inline, trackReads: trackReads}
+	return c.simulateForced(fd, inline, trackReads, nil)
+}
+
+func (c *Ctx) simulateForced(fd *ast.FuncDecl, inline func(*types.Func) bool, trackReads bool, force func(sval) (bool, bool)) ([]spath, string) {
+	s := &effsim{c: c, inline: inline, trackReads: trackReads, force: force, loopBodyOnly: force != nil}
 	st := &sstate{vars: map[types.Object]sval{}, heap: map[string]sval{}, hkeys: map[string]svPath{}}
 	if r := c.recvObj(fd); r != nil {
 		st.vars[r] = svPath{root: r}
@@ -321,7 +336,7 @@ func pathKey(p svPath) string {
 }
 
 func extend(p svPath, steps ...string) svPath {
-	return svPath{root: p.root, steps: append(append([]string{}, p.steps...), steps...)}
+	return svPath{root: p.root, via: p.via, steps: append(append([]string{}, p.steps...), steps...)}
 }
 
 // resolve rewrites a location whose root variable holds a pointer to (or an alias of) another location.
@@ -338,6 +353,13 @@ func (s *effsim) resolve(st *sstate, p svPath) svPath {
 			p = extend(b, p.steps...)
 		case svAddr:
 			p = extend(b.p, p.steps...)
+		case svSel, svCall, svIndex, svElem:
+			// a slice, map or pointer obtained from a call result: what is stored through it lands in the
+			// object that value designates
+			if isRefType(p.root.Type()) {
+				return svPath{via: b, steps: p.steps}
+			}
+			return p
 		default:
 			return p
 		}
@@ -346,6 +368,15 @@ func (s *effsim) resolve(st *sstate, p svPath) svPath {
 }
 
 func (s *effsim) load(st *sstate, p svPath) sval {
+	if p.root == nil && p.via != nil {
+		var steps []string
+		for _, stp := range p.steps {
+			if stp != "*" {
+				steps = append(steps, stp)
+			}
+		}
+		return s.project(st, p.via, steps)
+	}
 	if len(p.steps) == 0 {
 		if v, ok := st.vars[p.root]; ok {
 			return v
@@ -361,7 +392,7 @@ func (s *effsim) load(st *sstate, p svPath) sval {
 	}
 	// a prefix was stored as a whole
 	for n := len(p.steps) - 1; n >= 0; n-- {
-		if v, ok := st.heap[pathKey(svPath{p.root, p.steps[:n]})]; ok {
+		if v, ok := st.heap[pathKey(svPath{root: p.root, steps: p.steps[:n]})]; ok {
 			return s.project(st, v, p.steps[n:])
 		}
 	}
@@ -439,6 +470,11 @@ func (s *effsim) project(st *sstate, v sval, steps []string) sval {
 }
 
 func (s *effsim) store(st *sstate, p svPath, v sval, pos token.Pos) {
+	if p.root == nil && p.via != nil {
+		st.epoch++
+		st.effs = append(st.effs, seffect{kind: "write", dst: p, val: v, ncond: len(st.conds), pos: pos})
+		return
+	}
 	if len(p.steps) == 0 {
 		st.vars[p.root] = v
 		return
@@ -561,6 +597,16 @@ func (s *effsim) branchOn(v sval, st *sstate, yes, no func(*sstate)) {
 	if n, ok := v.(svNot); ok {
 		s.branchOn(n.x, st, no, yes)
 		return
+	}
+	if s.force != nil {
+		if b, ok := s.force(v); ok {
+			if b {
+				yes(st)
+			} else {
+				no(st)
+			}
+			return
+		}
 	}
 	// the same literal was already decided on this path
 	for _, cd := range st.conds {
@@ -860,6 +906,12 @@ func (s *effsim) execRange(x *ast.RangeStmt, st *sstate, fr *sframe, k func(*sst
 			}
 			if o := c.objOf(id); o != nil {
 				st.vars[o] = v
+				for k, q := range st.hkeys {
+					if q.root == o {
+						delete(st.heap, k)
+						delete(st.hkeys, k)
+					}
+				}
 			}
 			return
 		}
@@ -917,7 +969,10 @@ func (s *effsim) execRange(x *ast.RangeStmt, st *sstate, fr *sframe, k func(*sst
 			}
 		}
 		// any other collection: the body runs for some element (or not at all)
-		skip := st.clone()
+		var skip *sstate
+		if !s.loopBodyOnly {
+			skip = st.clone()
+		}
 		st.conds = append(st.conds, scond{v: coll, loop: true})
 		bind(x.Key, svOpaque{x.Key}, st)
 		bind(x.Value, svElem{coll}, st)
@@ -928,7 +983,7 @@ func (s *effsim) execRange(x *ast.RangeStmt, st *sstate, fr *sframe, k func(*sst
 			}
 			k(st, ctlNext, nil)
 		})
-		if s.unsupported != "" {
+		if s.unsupported != "" || skip == nil {
 			return
 		}
 		skip.conds = append(skip.conds, scond{v: coll, loop: true, neg: true})
@@ -1030,6 +1085,12 @@ func (s *effsim) assign(lhs, rhs []ast.Expr, tok token.Token, st *sstate, pos to
 						st.effs = append(st.effs, seffect{kind: "write", dst: svPath{root: o}, val: v, ncond: len(st.conds), pos: pos})
 					}
 					st.vars[o] = v
+					for hk, q := range st.hkeys {
+						if q.root == o {
+							delete(st.heap, hk)
+							delete(st.hkeys, hk)
+						}
+					}
 				}
 				continue
 			}
@@ -1046,7 +1107,11 @@ func (s *effsim) assign(lhs, rhs []ast.Expr, tok token.Token, st *sstate, pos to
 			}
 			p, ok := s.lvalue(l, st)
 			if !ok {
-				s.fail("assignment target %s", exprString(l))
+				why := ""
+				if se, isStar := l.(*ast.StarExpr); isStar {
+					s.evalNow(se.X, st, func(v sval) { why = " (pointer value " + svString(v) + ")" })
+				}
+				s.fail("assignment target %s%s", exprString(l), why)
 				return
 			}
 			if tok != token.ASSIGN && tok != token.DEFINE {
@@ -1141,6 +1206,9 @@ func (s *effsim) lvalue(e ast.Expr, st *sstate) (svPath, bool) {
 			case svPath:
 				// the pointee of an initial pointer value: the location "everything below it"
 				out, found = extend(b, "*"), true
+			case svSel, svCall, svIndex, svElem:
+				// a pointer obtained from a call result: the location is named by that value
+				out, found = svPath{via: b, steps: []string{"*"}}, true
 			}
 		})
 		return out, found
@@ -1596,6 +1664,23 @@ func (s *effsim) evalArgs(call *ast.CallExpr, sig *types.Signature, st *sstate, 
 func (s *effsim) opaqueCall(st *sstate, callee types.Object, fun, recv sval, args []sval, call *ast.CallExpr) []sval {
 	s.ncall++
 	sc := &svCall{id: s.ncall, callee: callee, fun: fun, recv: recv, args: args, call: call}
+	for i, a := range args {
+		if ad, ok := a.(svAddr); ok && len(ad.p.steps) == 0 && ad.p.root != nil {
+			if v, has := st.vars[ad.p.root]; has {
+				if sc.held == nil {
+					sc.held = make([]sval, len(args))
+				}
+				sc.held[i] = v
+				// the callee may store through the pointer: a pointer-typed local whose address is handed over
+				// holds, afterwards, an out-value of this call (result index 100+i)
+				if _, isPtr := ad.p.root.Type().Underlying().(*types.Pointer); isPtr && s.outValues {
+					out := *sc
+					out.idx = 100 + i
+					st.vars[ad.p.root] = out
+				}
+			}
+		}
+	}
 	if f, ok := callee.(*types.Func); ok && f.Pkg() != nil && f.Pkg() != s.c.Types && len(args) == 0 && recv != nil {
 		sc.observer = true
 	} else {
@@ -1807,6 +1892,8 @@ func svString(v sval) string {
 		n := "?"
 		if x.root != nil {
 			n = x.root.Name()
+		} else if x.via != nil {
+			n = "(" + svString(x.via) + ")"
 		}
 		if len(x.steps) == 0 {
 			return n
@@ -1880,6 +1967,55 @@ func svString(v sval) string {
 		return "‹?›"
 	}
 	return fmt.Sprintf("%T", v)
+}
+
+// svWalk visits v and every value it is built from.
+func svWalk(v sval, f func(sval)) {
+	if v == nil {
+		return
+	}
+	f(v)
+	switch x := v.(type) {
+	case svPath:
+		if x.via != nil {
+			svWalk(x.via, f)
+		}
+	case svAddr:
+		svWalk(x.p, f)
+	case svBin:
+		svWalk(x.x, f)
+		svWalk(x.y, f)
+	case svNot:
+		svWalk(x.x, f)
+	case svCall:
+		if x.recv != nil {
+			svWalk(x.recv, f)
+		}
+		if x.fun != nil {
+			svWalk(x.fun, f)
+		}
+		for _, a := range x.args {
+			svWalk(a, f)
+		}
+	case svIndex:
+		svWalk(x.x, f)
+		svWalk(x.i, f)
+	case svHas:
+		svWalk(x.x, f)
+		svWalk(x.i, f)
+	case svSel:
+		svWalk(x.x, f)
+	case svElem:
+		svWalk(x.of, f)
+	case svStruct:
+		for _, fv := range x.fields {
+			svWalk(fv, f)
+		}
+	case svList:
+		for _, e := range x.elems {
+			svWalk(e, f)
+		}
+	}
 }
 
 // isZeroSV: the value is the zero value of its type (nil, false, "", 0, T{}).
